@@ -14,7 +14,7 @@ import (
 
 // C15: the cosmetic engine returns exactly the applicable, non-excepted selectors.
 
-var c15Domains = []string{"example.org", "sub.example.org", "example.com", "a.com", "b.a.com", "google.*", "example.*", "a.co.uk", "xa.com", "evil.org", "org", "com", "co.uk", "uk", "maps.example.*", "www.google.*", "b.a.*", "cafe.de", "bad.*"}
+var c15Domains = []string{"example.org", "sub.example.org", "example.com", "a.com", "b.a.com", "google.*", "example.*", "a.co.uk", "xa.com", "evil.org", "org", "com", "co.uk", "uk", "maps.example.*", "www.google.*", "b.a.*", "cafe.de", "bad.*", "Example.ORG"}
 var c15Selectors = []string{".banner", "#ad", ".ad-box", "div[id^=\"ads\"]", ".sponsored", ".x"}
 var c15Hostnames = []string{
 	"example.org", "sub.example.org", "deep.sub.example.org", "xexample.org", "example.org.evil.org", "example.com", "www.example.com",
@@ -25,6 +25,8 @@ var c15Hostnames = []string{
 	"a.b.c.d.e.f.g.h.i.j.k.l.example.org", gen.DeepHost,
 	// Names made of hexadecimal characters only, and addresses.
 	"cafe.de", "abc.cafe.de", "bad.ee", "fe.bad.be", "1.2.3.4", "::1",
+	// Capital letters (names are compared as written).
+	"Example.ORG", "sub.Example.ORG", "EXAMPLE.org", "Sub.example.org",
 }
 
 // c15CollidingSelectors is set per case: selectors with the same FastHash.
